@@ -1042,6 +1042,12 @@ pub fn check_case(c: &Case14, model: &mut Model, rep: &mut Report) {
         }
     }
     let info = |what: &str| json!({"origin": c.origin, "xml": c.xml, "acts": acts_json(&c.acts), "what": what});
+    // the harness's verification data model computes in i64: values that leave that range make its own
+    // arithmetic panic (the Lean model computes in unbounded Int) — not the platform's doing
+    if run.panicked && run.trace.iter().any(|l| l.starts_with("dm ") && l.split(' ').any(|w| w.trim_start_matches('-').len() >= 18 && w.trim_start_matches('-').chars().all(|c| c.is_ascii_digit()))) {
+        rep.count("skipped_value_beyond_i64_range_of_the_harness_vdm");
+        return;
+    }
     if (run.panicked || run.timed_out) && run.trace.len() > 60_000 {
         // runaway: the document and its children feed each other for ever (a child's start-up message
         // changes data that re-enters the invoking state, which starts the next child, …) or a
